@@ -2,3 +2,4 @@ INIT InitAcyclicUnroll
 NEXT Next
 INVARIANT AcyclicUnrollOK
 INVARIANT HintReadsFeedback
+CHECK_DEADLOCK FALSE
